@@ -11,6 +11,7 @@ correspondence run. Database contents are `Nat` (0 = the empty database).
   start | startold | startcore             → ok | err <kind>     (Upgrade7To8 then Upgrade8To10; startold: before
                                             5a94866; startcore: before the empty-directory fix)
   hasdata                                  → ok      (store.HasData before Store.Open: creates an empty wsnapshots)
+  hasdata?                                 → yes | no   (its answer, as far as the snapshot directories go)
   cut78 <s | rt/<v8dir> | b/<v8dir> | ro/<v7dir>>                → ok
   cut810 <s | pt | ip/<k>/<cut8> | pd | cl/<v10dir>/<v8dir>>     → ok
        cut8 = n | mt | ft | rj/<v8dir>
@@ -192,6 +193,7 @@ def step (d : DState) (line : String) : DState × String :=
     | some c => ({ s := startCut 0 d.s (.in810 c) }, "ok")
     | none => (d, "bad-op")
   | ["hasdata"] => ({ s := hasData d.s }, "ok")
+  | ["hasdata?"] => (d, if hasDataAnswer d.s then "yes" else "no")
   | ["startcore"] =>
     match startCore 0 d.s with
     | .ok s' => ({ s := s' }, "ok")
